@@ -47,6 +47,8 @@ UNITS = {
     "c07": {"kind": "exe", "src": ["units/c07_int_bits.cpp"]},
     "c06": {"kind": "exe", "src": ["units/c06_convert.cpp"], "aux": {"ref": {"src": "common/ref.cpp", "flags": ["-ffp-contract=off", "-fno-builtin"]}}, "link": ["ref"]},
     "c09": {"kind": "exe", "src": ["units/c09_reduce.cpp"]},
+    "c05": {"kind": "exe", "src": ["units/c05_data_movement.cpp"]},
+    "c05full": {"kind": "exe", "src": ["units/c05_data_movement.cpp"], "flags": ["-DVH_MASKS_FULL"]},
     "c02": {"kind": "exe", "src": ["units/c02_fp_basic.cpp"], "aux": {"ref": {"src": "common/ref.cpp", "flags": ["-ffp-contract=off", "-fno-builtin"]}}, "link": ["ref"]},
 }
 ALL22 = "every architecture this CPU executes: 20 x86 (sse2 ... avx512vnni<avx512vbmi2>) + emulated<128>, emulated<256>"
@@ -195,6 +197,30 @@ PROPS = {
                 "unique minimum, type MAX / MIN in lane k, pairwise-distinct permutation, for every lane k; haddp rows random small integers, one-hot columns, and rows with "
                 "pairwise distinct sums; distinct cell = (op,type,arch,workload,witness lane); " + ALL22,
         "assumptions": COMMON_ASSUME + ["floating reduce_add tolerance (n-1)*eps*sum|a_i|; exact for the small-integer workloads"],
+        "floor": {"quick": 10**5, "thorough": 10**6},
+    },
+    "C05": {
+        "technique": "runtime monitoring: index-level permutation model compared by memcmp on distinct-pattern lanes; every shift/rotate/insert count; all compress/expand masks "
+                     "for <=16 lanes; constant-mask families instantiated per architecture",
+        "level_text": "Every data-movement call observed (constant and run-time swizzle, shuffle, zip_lo/hi, slide_left/right<N> for every byte count, rotate_left/right<N> for "
+                      "every N, extract_pair for every index, insert<I>/get for every lane, transpose, compress/expand under all 2^size masks for size <= 16) is compared lane by "
+                      "lane with the documented index map on lanes holding pairwise distinct bit patterns. Constant masks are programs: structured families that select distinct "
+                      "intrinsic sequences plus pseudo-random masks, and all masks for 2 lanes / 64 of 256 (quick) or all 256 (thorough) for 4 lanes. Exploration.",
+        "level_note": "Combinations the library does not accept are skipped and listed (not_accepted): no 8-bit constant swizzle below avx512vbmi, no 8/16-bit on avx/avx2, "
+                      "slide on avx512f/cd/dq, run-time 'not implemented' asserts for 8/16-bit zip on avx512f/cd/dq. Masks with more than 4 lanes are sampled.",
+        "design_ref": "DESIGN.md section 6 C05, 5.3",
+        "jobs": [
+            {"unit": "c05", "tiers": ["quick"]},
+            {"unit": "c05full", "tiers": ["thorough"]},
+            {"unit": "c05full", "variant": "ndebug", "tiers": ["thorough"]},
+            {"unit": "c05", "variant": "native", "tiers": ["thorough"]},
+            {"unit": "c05", "variant": "clang", "tiers": ["thorough"]},
+        ],
+        "rule": "each evaluation = one output lane (slides: one output byte) compared with the index model; constant-mask families: identity, reverse, broadcast k, rotate k, swap "
+                "pairs/halves, dup even/odd, in-lane reverse, cross-lane, contiguous pairs, low/high-half-only, 8 (quick) / 24 (thorough) pseudo-random, exhaustive for <=4 lanes "
+                "(64 of 256 in quick); shuffle: pure-x, pure-y, zip_lo, zip_hi, select patterns, half/half, 6/16 random; run-time: random / all-equal / extreme index vectors, "
+                "one-hot / prefix / all-but-one / random / all 2^size masks; distinct cell = (op,type,arch,mask family or count or mask hash); " + ALL22,
+        "assumptions": COMMON_ASSUME + ["swizzle/extract/insert indices < size, slide counts <= register bytes (documented preconditions)"],
         "floor": {"quick": 10**5, "thorough": 10**6},
     },
 }
